@@ -222,7 +222,7 @@ func (c *Ctx) ViolationFor(prop, class, desc string, cas any) {
 	h.Write(raw)
 	h.Write([]byte(class))
 	p := filepath.Join(dir, fmt.Sprintf("%s-%s-%016x.json", prop, sanitize(class), h.Sum64()))
-	body, _ := json.MarshalIndent(map[string]any{"property": prop, "class": class, "desc": desc, "harness": c.Prop, "case": json.RawMessage(raw)}, "", " ")
+	body, _ := json.MarshalIndent(map[string]any{"property": prop, "class": class, "desc": desc, "harness": c.Prop, "check": os.Getenv("VERIF_CHECK_ID"), "case": json.RawMessage(raw)}, "", " ")
 	os.WriteFile(p, body, 0o644)
 	c.violations = append(c.violations, Violation{Property: prop, Class: class, Desc: desc, Replay: p, Case: raw})
 }
